@@ -17,6 +17,7 @@ import glob
 import hashlib
 import json
 import os
+import random
 
 import vlib
 
@@ -185,6 +186,166 @@ def grid_model(ck, wd):
     return table, gpath
 
 
+
+# ----------------------------------------------------------------------------- the command layer (spec/G4Messenger.tla)
+MSG_ABSENT = -999
+
+
+def build_msg(variant):
+    r = vlib.repo()
+    ext = os.path.join(r, "extensions", "bxdecay0_g4")
+    srcs = ["harness/g4msg_replay.cc",
+            os.path.join(ext, "bxdecay0_g4", "primary_generator_action.cc"),
+            os.path.join(ext, "bxdecay0_g4", "primary_generator_action_messenger.cc"),
+            os.path.join(ext, "bxdecay0_g4", "vertex_generator_interface.cc")]
+    for x in srcs[1:]:
+        if not os.path.exists(x):
+            raise vlib.InfraError("source under test missing: %s" % x)
+    # the command-layer stand-in and the extension directory come first: the REAL messenger header and source are compiled
+    extra = ["-I", os.path.join(vlib.ROOT, "g4stub_ui"), "-I", ext, "-I", os.path.join(vlib.ROOT, "g4stub"),
+             "-DC17_SRC_SIG=" + src_signature(), "-Wno-deprecated-declarations"]
+    return vlib.compile_harness("g4msg_replay", srcs, variant, extra=extra)
+
+
+def msg_command(name, a):
+    """action instance of G4Messenger.tla -> macro command line"""
+    P = "/bxdecay0/generator/"
+
+    def flag(d):
+        return [] if d == MSG_ABSENT else ["true"]
+
+    def mev(x):
+        return "%.1f" % (x / 10.0)
+    if name == "Background":
+        return P + " ".join(["background", a[0], str(a[1])] + flag(a[2]))
+    if name == "Dbd":
+        return P + " ".join(["dbd", a[0], str(a[1]), str(a[2]), str(a[3])] + flag(a[4]))
+    if name == "DbdRanged":
+        t = ["dbdranged", a[0], str(a[1]), str(a[2]), str(a[3]), mev(a[4])]
+        if a[5] != MSG_ABSENT:
+            t += [mev(a[5])] + flag(a[6])
+        return P + " ".join(t)
+    if name == "Mdl":
+        return P + " ".join(["mdl", a[0], str(a[1]), str(a[2]), str(a[3]), str(a[4])] + flag(a[5]))
+    if name == "Mdlr":
+        return P + " ".join(["mdlr", a[0], str(a[1]), str(a[2]), str(a[3]), str(a[4]), str(a[5])] + flag(a[6]))
+    if name == "Short":
+        return P + {"background": "background Co60", "dbd": "dbd Mo100 7 1", "dbdranged": "dbdranged Mo100 7 4 0", "verbosity": "verbosity"}[a[0]]
+    if name == "Garbled":
+        return P + {"background": "background Co60 abc", "dbd": "dbd Mo100 7 one 0", "dbdranged": "dbdranged Mo100 7 4 0 low",
+                    "verbosity": "verbosity high"}[a[0]]
+    if name == "Verbosity":
+        return P + "verbosity %d" % a[0]
+    return P + name.lower()
+
+
+def msg_key(st):
+    """projection shared by model states and observations: everything but the verdict of the last command"""
+    b, m = st["base"], st["mdl"]
+    return (b["cat"], b["nuc"], b["seed"], b["mode"], b["level"], b["emin"], b["emax"], bool(b["dbg"]),
+            bool(m["use"]), m["name"], m["rank"], m["lon"], m["col"], m["ap"], m["ap2"], bool(m["eom"]), bool(st["changed"]), st["verb"])
+
+
+def messenger_phase(ck, wd, thorough):
+    """spec/G4Messenger.tla: every (reachable configuration, command line) pair of the model is executed on the real messenger and
+    action; the configuration afterwards has to be one the model allows.  Breadth-first over the configurations the REAL code
+    reaches (the model is nondeterministic where a named deviation leaves the choice)."""
+    dump = os.path.join(wd, "g4messenger")
+    r = vlib.tlc("MCG4Messenger", "MCG4Messenger.cfg", dump=dump, workers=NPROC, timeout=600)
+    if r.error:
+        raise vlib.InfraError(r.error)
+    ck.tlc_stats(r, "MCG4Messenger (command layer of the Geant4 extension)")
+    if r.violated:
+        ck.violation("model:G4Messenger:" + r.violated, "G4Messenger.tla violates %s" % r.violated, {"trace": r.trace[-3:]})
+        return
+    ri = vlib.tlc("MCG4Messenger", "MCG4Messenger_ideal.cfg", workers=NPROC, timeout=600)
+    if ri.error:
+        raise vlib.InfraError(ri.error)
+    if ri.violated != "DbdHasNoStaleWindow":
+        raise vlib.InfraError("MCG4Messenger_ideal.cfg: the documented deviation DbdKeepsWindow is no longer a behaviour of the model")
+    g = vlib.parse_dot(dump + ".dot")
+    # (projected state, action label) -> allowed (projected successor, verdict class)
+    succ = {}
+    acts = {}
+    for (s_, name, args, d_) in g["edges"]:
+        lab = "%s(%s)" % (name, ",".join(str(x) for x in args))
+        acts[lab] = (name, args)
+        ks, kd = msg_key(g["nodes"][s_]), msg_key(g["nodes"][d_])
+        succ.setdefault((ks, lab), set()).add((kd, g["nodes"][d_]["res"] == "ui-rejected"))
+    labels = sorted(acts)
+    ck.set("messenger_model_states", len(g["nodes"]))
+    ck.set("messenger_model_edges", len(g["edges"]))
+    ck.set("messenger_command_lines", len(labels))
+    exe = build_msg("plain")
+    env = vlib.harness_env("plain")
+    init = msg_key(g["nodes"][g["init"][0]])
+    reach = {init: []}          # observed configuration -> command labels that lead the real code there
+    frontier = [init]
+    pairs = steps = 0
+    limit = None if thorough else 400
+    rng = random.Random(ck.seed)
+    level = 0
+    while frontier:
+        level += 1
+        if limit is not None and len(frontier) > limit:
+            frontier = rng.sample(frontier, limit)
+            ck.set("messenger_cover_complete", False)
+        script, plan = [], []
+        for st in frontier:
+            for lab in labels:
+                script.append("RESET")
+                for pl in reach[st]:
+                    script.append(msg_command(*acts[pl]))
+                script.append(msg_command(*acts[lab]))
+                plan.append((st, lab, len(reach[st]) + 1))
+        rc, out = vlib.sh([exe], input="\n".join(script) + "\n", timeout=900, env=env, drop_stderr=True)
+        obs = [json.loads(l) for l in out.splitlines() if l.startswith('{"n"')]
+        if rc != 0 or len(obs) != sum(p[2] for p in plan):
+            ck.violation("messenger:crash", "the command-layer replay died (rc=%s) after %d of %d command lines at BFS level %d"
+                         % (rc, len(obs), sum(p[2] for p in plan), level), {"mode": "messenger", "script": script[:40]})
+            return
+        nxt = []
+        i = 0
+        for (st, lab, n) in plan:
+            o = obs[i + n - 1]
+            before = msg_key(obs[i + n - 2]) if n > 1 else init
+            i += n
+            steps += n
+            pairs += 1
+            if before != st:
+                raise vlib.InfraError("messenger replay is not deterministic: %s reached %s instead of %s" % (reach[st], before, st))
+            after = msg_key(o)
+            allowed = succ.get((st, lab))
+            if allowed is None:
+                raise vlib.InfraError("messenger replay: configuration %s is not a state of the model" % (st,))
+            name, args = acts[lab]
+            if o["exc"]:
+                ck.violation("messenger:%s:exception" % name, "command line %r raised %s" % (msg_command(name, args), o["exc"]),
+                             {"mode": "messenger", "commands": [msg_command(*acts[x]) for x in reach[st]] + [msg_command(name, args)]})
+                continue
+            if (after, o["rc"] != 0) not in allowed:
+                fields = ["cat", "nuc", "seed", "mode", "level", "emin", "emax", "dbg", "mdl.use", "mdl.name", "mdl.rank", "mdl.lon", "mdl.col",
+                          "mdl.ap", "mdl.ap2", "mdl.eom", "changed", "verbosity"]
+                best = min(allowed, key=lambda x: sum(1 for u, v in zip(x[0], after) if u != v))
+                diff = [f for f, u, v in zip(fields, best[0], after) if u != v] or ["verdict"]
+                ck.violation("messenger:%s:%s" % (name, "+".join(diff[:3])),
+                             "after %s the command line %r (command layer returned %d) leaves the interface configuration %s; G4Messenger.tla "
+                             "allows %s (fields that differ from the nearest: %s): the values typed do not arrive in the configuration "
+                             "the action validates and generates from" % ([msg_command(*acts[x]) for x in reach[st]], msg_command(name, args), o["rc"],
+                                                                          dict(zip(fields, after)), [dict(zip(fields, a_[0])) for a_ in sorted(allowed, key=str)][:2], diff),
+                             {"mode": "messenger", "commands": [msg_command(*acts[x]) for x in reach[st]] + [msg_command(name, args)]})
+                continue
+            if after not in reach:
+                reach[after] = reach[st] + [lab]
+                nxt.append(after)
+        frontier = nxt
+    ck.add("evaluations", pairs)
+    ck.set("messenger_state_command_pairs_executed", pairs)
+    ck.set("messenger_configurations_reached_by_the_code", len(reach))
+    ck.set("messenger_command_lines_executed", steps)
+    ck.sample({"scenario": "command layer", "commands": [msg_command(*acts[x]) for x in max(reach.values(), key=len)]})
+
+
 def absorb(ck, res, results):
     results.append(res)
 
@@ -196,6 +357,11 @@ def replay_one(ck, replay_path):
     wd = vlib.workdir("c17r")
     exe = build("plain")
     env = vlib.harness_env("plain")
+    if rp.get("mode") == "messenger":
+        messenger_phase(ck, wd, False)
+        if not ck.violations:
+            print("replay: no violation reproduced")
+        return ck.finish()
     if rp.get("mode") == "grid":
         gm = grid_model(ck, wd)
         if gm is None:
@@ -260,6 +426,9 @@ def run(tier, replay):
     g, gpath, alist, clist = m
     table, tpath = gm
     labels = [act_label(k, clist) for k in alist]
+
+    # ---- 1b. the command layer: macro command lines -> interface configuration
+    messenger_phase(ck, wd, thorough)
 
     # ---- 2. the real class
     exes = {v: build(v) for v in ("plain", "asan")}
